@@ -67,4 +67,13 @@ def main():
 
 
 if __name__ == "__main__":
-    main()
+    try:
+        main()
+    except SystemExit:
+        raise
+    except BaseException:  # a bug in the machinery is never reported as a verdict about hive
+        import traceback
+
+        traceback.print_exc()
+        print("INCONCLUSIVE: harness error")
+        sys.exit(2)
